@@ -282,5 +282,16 @@ Proof.
   assert (X3 : forallb (fun ke : key * entry => spec_has s (fst ke)) (t_byMessage t) = true).
   { apply forallb_forall. intros [k e] Hin. simpl. rewrite (rel_has _ _ _ R).
     rewrite (k_in_get _ _ _ (inv_nodup t I) Hin). reflexivity. }
-  rewrite X1, X2, X3. reflexivity.
+  assert (X4 : index_is_projection (t_byMessage t) (t_bySession t) = true).
+  { pose proof (inv_index t I) as [S1 S2 S3]. unfold index_is_projection. apply andb_true_iff. split.
+    - apply forallb_forall. intros [[u sid] ms] Hin. cbn [fst snd].
+      pose proof (s_in_get _ _ _ S1 Hin) as G. destruct (S2 _ _ G) as [NE _].
+      destruct ms as [|m0 r0]; [contradiction|]. apply forallb_forall. intros m Hm.
+      assert (HK : has_key (t_byMessage t) (u, sid, m)) by (apply S3; eexists; split; [exact G|exact Hm]).
+      unfold has_key in HK. destruct (kget (u, sid, m) (t_byMessage t)); [reflexivity|contradiction].
+    - apply forallb_forall. intros [[[u sid] m] e] Hin. cbn [fst key_skey key_mid].
+      pose proof (k_in_get _ _ _ (inv_nodup t I) Hin) as G.
+      assert (HK : has_key (t_byMessage t) (u, sid, m)) by (unfold has_key; rewrite G; discriminate).
+      apply S3 in HK. destruct HK as [ms [G1 G2]]. rewrite G1. apply mem_mid_in. exact G2. }
+  cbn [c_sessions]. rewrite X1, X2, X3, X4. reflexivity.
 Qed.
